@@ -8,17 +8,21 @@ MANIFEST = {
             "invariant: every object is a system actor, has OnLaunch at the head of its mailbox, has handled OnLaunch with its current "
             "instance, or is terminated) — an incarnation handles nothing but OnRestarted before its OnLaunch; C03_terminated_is_final, "
             "C03_terminated_handles_nothing, C03_nothing_handled_after_terminated — nothing at all after its own OnTerminated, a restart "
-            "cannot revive it. With C04_own_step_ending_suspended_is_waiting and C04_no_user_message_until_decision_run: no user message "
-            "between OnRestarting and the fresh instance. The order OnRestarting, OnTerminate, OnTerminated (old instance), OnRestarted, "
-            "OnLaunch (new instance) inside the restart is how try_restarted/start_instance are built and is decided per run by step "
-            "equality with the model and the C03 monitors.",
-    "note": "Partial: 'OnTerminate before own OnTerminated' and the exact restart sequence are per-run (correspondence + monitors), not "
-            "theorems. C03_launch_first is about the model, whose spawn registers the address and queues OnLaunch in one step; in the code "
+            "cannot revive it. C03_restart_completes_in_order (Kernel/Restart.v): the step that completes a restart shows exactly four "
+            "Handled observations, in order — OnTerminate, OnTerminated by the old instance number, OnRestarted, OnLaunch by the number the "
+            "provider hands out in that step — whatever the handlers do, and leaves the actor alive. C03_no_user_message_while_restarting_partial "
+            "(with C04_own_step_ending_suspended_is_waiting): between OnRestarting and that step the actor is waiting and stays so through "
+            "every step without a marker for its address, provided no resume request is pending; C03_resume_request_ignored_unless_alive: a "
+            "supervisor's Resume decision, which travels as a queued request since fix 925aa8b, is ignored by a restarting actor.",
+    "note": "Partial: 'OnTerminate before own OnTerminated', the freshness of the new instance number and 'no user message while restarting' "
+            "in the presence of Resume decisions that arrive during the restart are per-run (correspondence, lockstep corpus, monitors), not "
+            "theorems over all runs — the last one is the defect 925aa8b, found by the attempt to prove it (the model produced the history by "
+            "vm_compute, harness/cmd/kscript replayed it on the implementation). C03_launch_first is about the model, whose spawn registers the address and queues OnLaunch in one step; in the code "
             "these were two steps of ActorOf with a window in between (a message sent to the new address was handled before OnLaunch: "
             "13 of 3000 spawns in findings/C03-message-before-onlaunch_demo_test.go) — repaired by bde59a1 (mailbox created suspended "
-            "until OnLaunch is taken up) and watched on every run by the actor-level harness c01turns (C03:turns:*). Six defects were "
+            "until OnLaunch is taken up) and watched on every run by the actor-level harness c01turns (C03:turns:*). Seven defects were "
             "repaired (restart only from Alive, no user message while restarting, terminated actor handled queued messages, restart behind "
-            "pending messages, lifecycle-handler panics, message before OnLaunch). Trusted: Coq kernel+vm_compute, hand-written kernel model tied by lockstep replay.",
+            "pending messages, lifecycle-handler panics, message before OnLaunch, stale Resume decision during a restart). Trusted: Coq kernel+vm_compute, hand-written kernel model tied by lockstep replay.",
     "technique": "Coq proof (trace-indexed invariant over every run) on a message-step kernel model + lockstep differential replay of the "
                  "real actor system inside Coq",
 }
